@@ -368,6 +368,13 @@ func workerMain(d *Driver, tier string, seed int64, shard, only string) int {
 		if only != "" && !strings.Contains(it.ID, only) {
 			continue
 		}
+		if dl := os.Getenv("VF_DEADLINE"); dl != "" {
+			if t, err := strconv.ParseInt(dl, 10, 64); err == nil && time.Now().Unix() > t {
+				enc.Encode(&ItemResult{ID: it.ID, Obl: 1, Inconcl: []string{"not explored: the check's overall time budget was exhausted"}})
+				out.Flush()
+				continue
+			}
+		}
 		res := c.runItem(it)
 		enc.Encode(res)
 		out.Flush()
@@ -384,7 +391,7 @@ func (c *Ctx) runItem(it Item) *ItemResult {
 	e.funcs = map[string]int{}
 	crcLog = nil
 	t0 := time.Now()
-	budget := 150 * time.Second
+	budget := 90 * time.Second
 	if c.thorough() {
 		budget = 900 * time.Second
 	}
@@ -475,7 +482,11 @@ func parentMain(d *Driver, tier string, seed int64, nworkers int, only string) i
 				args = append(args, "-only", only)
 			}
 			cmd := exec.Command(exe, args...)
-			cmd.Env = append(os.Environ(), fmt.Sprintf("VERIF_SEED=%d", seed))
+			limit := 20 * time.Minute
+			if tier == "thorough" {
+				limit = 4 * time.Hour
+			}
+			cmd.Env = append(os.Environ(), fmt.Sprintf("VERIF_SEED=%d", seed), fmt.Sprintf("VF_DEADLINE=%d", t0.Add(limit).Unix()))
 			cmd.Stderr = os.Stderr
 			op, _ := cmd.StdoutPipe()
 			if err := cmd.Start(); err != nil {
